@@ -147,7 +147,8 @@ def _init_worker():
 
 
 def explore_parallel(name, factory, params, signature=None, max_paths=None, chunk=400, seed=0,
-                     validate=True, query_timeout_ms=20000, deadline_s=None, nproc=None, backend='z3'):
+                     validate=True, query_timeout_ms=20000, deadline_s=None, nproc=None, backend='z3',
+                     per_param_max=None):
     """Explore body=factory(param) for every param; split the decision trees dynamically
     over a fork()ed pool.  Returns a Section."""
     t0 = time.time()
@@ -157,6 +158,7 @@ def explore_parallel(name, factory, params, signature=None, max_paths=None, chun
     nproc = nproc or NPROC
     ctx = mp.get_context('fork')
     pending = set()
+    per_param = {}
     queue = [(key, i, [], chunk, seed, validate, query_timeout_ms, backend) for i in range(len(params))]
     queue.reverse()
     with cf.ProcessPoolExecutor(max_workers=nproc, mp_context=ctx, initializer=_init_worker) as pool:
@@ -168,7 +170,14 @@ def explore_parallel(name, factory, params, signature=None, max_paths=None, chun
             return True
         while queue or pending:
             while queue and len(pending) < nproc * 2 and budget_left():
-                item = queue.pop()
+                item = None
+                # fair budget: skip work items of parameters that used up their own share
+                for qi in range(len(queue) - 1, -1, -1):
+                    if per_param_max is None or per_param.get(queue[qi][1], 0) < per_param_max:
+                        item = queue.pop(qi)
+                        break
+                if item is None:
+                    break
                 if len(queue) + len(pending) < nproc * 2 and chunk > 16:
                     # not enough work items yet to keep the pool busy: split early
                     item = item[:3] + (16,) + item[4:]
@@ -178,6 +187,7 @@ def explore_parallel(name, factory, params, signature=None, max_paths=None, chun
             done, pending = cf.wait(pending, return_when=cf.FIRST_COMPLETED)
             for f in done:
                 pidx, sec, frontier = f.result()
+                per_param[pidx] = per_param.get(pidx, 0) + sec.paths
                 total.merge(sec)
                 for p in frontier:
                     queue.append((key, pidx, p, chunk, seed, validate, query_timeout_ms, backend))
